@@ -136,6 +136,15 @@ C06_IDIOMS = {
 
 # ---- C07: sharing by reference through variables, fields, captured variables, parameters ------------------
 C07_IDIOMS = {
+    # a field that holds a table is overwritten with ANOTHER table of equal contents; afterwards the two are told apart
+    "overwrite-with-equal-table": Prog([Set("cfg", Table()), Set("cfg.items", Table()), Set("old", Rd("cfg.items")), Set("fresh", Table()),
+                                        Set("cfg.items", Rd("fresh")), C("AppendTable", [Int(1), Rd("fresh")]),
+                                        SetG("through_field", Op("Len", Rd("cfg.items"))), SetG("old_len", Op("Len", Rd("old"))),
+                                        Set("a", Table()), Set("a.n", Int(1)), Set("b", Table()), Set("b.n", Int(1)), Set("t", Table()),
+                                        C("SetProperty", [Rd("a"), Rd("t"), Int(7)]), C("SetProperty", [Rd("b"), Rd("t"), Int(7)]),
+                                        Set("a.n", Int(2)), Set("got", C("GetProperty", [Rd("t"), Int(7)])), SetG("n", Rd("got.n")),
+                                        Set("z", Table()), C("SetProperty", [Real(0, 0), Rd("z"), Int(1)]), C("SetProperty", [Int(0), Rd("z"), Int(1)]),
+                                        SetG("z", Rd("z"))]),
     # nil is a key like any other: for-each (and the library functions built on it) visit the entry and what follows it
     "nil-key-foreach": Prog([Set("t", Table()), C("SetProperty", [Int(10), Rd("t"), Int(1)]), C("SetProperty", [Int(20), Rd("t"), Nil()]),
                              C("SetProperty", [Int(30), Rd("t"), Str("z")]),
